@@ -409,6 +409,15 @@ def Format.compress : Format → BA → Res BA
   | .lz10, x => compress10 x
   | .lz13, x => (compress13 x).1
 
+/-- `str::ends_with` on UTF-8 bytes. -/
+def endsWith (name suffix : Bytes) : Bool :=
+  suffix.length ≤ name.length && name.drop (name.length - suffix.length) == suffix
+
+/-- lz10.rs:12-14, lz13.rs:169-171, compression_format.rs:13-18 -/
+def Format.isCompressedFilename : Format → Bytes → Bool
+  | .lz10, n => endsWith n (bs ['.', 'c', 'm', 's']) || endsWith n (bs ['.', 'c', 'm', 'p'])
+  | .lz13, n => endsWith n (bs ['.', 'l', 'z'])
+
 def Format.decompress : Format → Bytes → Res BA
   | .lz10, s => decompress10 s
   | .lz13, s => decompress13 s
